@@ -45,7 +45,7 @@ CLAIMED = {
              'suffix of microsecond/second/minute/hour and the three-positional form lose nothing: the constructor '
              'rebuilds every field, tzinfo presence and fold). C07_collections_evaluate / C07_ordereddict_order_kept / '
              'C07_deque_order_kept / C07_collections_rebuild (Model/StdColl.v, Proofs/StdCollProofs.v): OrderedDict, deque, '
-             'defaultdict, Counter, ChainMap, mappingproxy, exceptions and partial are modelled as the call their printer hands '
+             'defaultdict, Counter, ChainMap, mappingproxy, exceptions, partial, UUID, SimpleNamespace and namedtuples are modelled as the call their printer hands '
              'to pretty_call_alt; that call evaluates to itself with evaluated arguments under every setting, OrderedDict items '
              'and deque elements keep their own order whether or not sort_dict_keys is set, and what the constructors make of '
              'the call (pairs inserted in order, last maxlen elements, ChainMap() = one empty dict) is the printed object under '
